@@ -58,6 +58,8 @@ func (h hop) String() string {
 		return fmt.Sprintf("WalkProgrammably+WalkIterProgrammably(t%d)", h.T)
 	case "U":
 		return "NewRoot(unrelated).Add(u)"
+	case "H":
+		return fmt.Sprintf("WalkFromRoot(t%d, custom branches, dry run, stopped at node 2)+massive JSON", h.T)
 	}
 	return fmt.Sprintf("%s(t%d)", h.K, h.T)
 }
@@ -271,6 +273,19 @@ func (w *c13World) apply(h hop) {
 		gtree.WalkProgrammably(w.real[h.T][0], func(*gtree.WalkerNode) error { return nil })
 		for range gtree.WalkIterProgrammably(w.real[h.T][0]) {
 		}
+	case "H":
+		// a walk with other branch strings, the dry-run option and a callback that stops at the second node; then
+		// a massive JSON output: different options, same tree
+		n := 0
+		gtree.WalkFromRoot(w.real[h.T][0], func(*gtree.WalkerNode) error {
+			if n++; n == 2 {
+				return errStop
+			}
+			return nil
+		}, append(sut.FmtOpts(fmtTuples[6]), gtree.WithDryRun())...)
+		guardMaybeMassive(true, func() {
+			gtree.OutputFromRoot(&bytes.Buffer{}, w.real[h.T][0], gtree.WithMassive(context.Background()), gtree.WithEncodeJSON(), gtree.WithFileExtensions([]string{"a"}))
+		})
 	case "U":
 		// an unrelated root (and a child) made in between
 		gtree.NewRoot("unrelated").Add("u")
@@ -546,6 +561,9 @@ func init() {
 				}
 				if len(hist) == 3 && t == 0 {
 					rec(append(hist, hop{K: "Z", T: t}), s, L)
+				}
+				if (len(hist) == 2 || len(hist) == 4) && t == 0 {
+					rec(append(hist, hop{K: "H", T: t}), s, L)
 				}
 				if !s.held[t] && t == 0 {
 					s.held[t] = true
